@@ -237,8 +237,9 @@ def fshift_experiment(n, ntr, axis, dt, D, calls, form=0, basis=True, seed=0, va
     # (a) the full impulse basis: run b puts e_((t+b)%n) on trace t
     if basis:
         maps = [np.full((nt, n), -1, dtype=np.int64) for _ in calls]
+        arr = np.zeros(shape, dtype=NPDT[dt])       # one array object, refilled by its owner between the calls
         for b in range(n):
-            arr = np.zeros(shape, dtype=NPDT[dt])
+            arr[...] = 0
             tv = _traces_view(arr, ntr, axis)
             where = (np.arange(nt) + b) % n
             tv[np.arange(nt), where] = 1
@@ -538,25 +539,37 @@ def replay_parabolic(cases):
     from ibldsp.utils import parabolic_max
     bad = []
     bylen = {}
-    for c in cases:
-        v = np.array(c["v"], dtype=float)
+    dts = (np.float64, np.float32, np.int64, np.int16)       # the vectors are small integers: exact in every one of them
+    for k, c in enumerate(cases):
+        v0 = np.array(c["v"], dtype=float)
+        # the caller's element type and storage (read-only, strided, window of a buffer); the argument stays as it was
+        v, buf = _store(v0.astype(dts[k % 4]), W_STORE[(k // 4) % 5])
+        keep, bkeep = v.copy(), (None if buf is None else buf.copy())
         e = c["exp"]
         want = (e[0] / e[1], e[2] / e[3])
         try:
             ip, mx = parabolic_max(v) if v.size > 1 else (0, v[0])
             got = (float(ip), float(mx))
+            if not (np.array_equal(v, keep) and (buf is None or np.array_equal(buf, bkeep, equal_nan=True))):
+                got = ("argument modified",) * 2
         except Exception as ex:  # noqa
             got = (type(ex).__name__,) * 2
         if not (isinstance(got[0], float) and abs(got[0] - want[0]) <= 1e-9 and abs(got[1] - want[1]) <= 1e-9):
-            bad.append((c, got))
-        bylen.setdefault(v.size, []).append((v, want, c))
+            bad.append((c, got + (np.dtype(dts[k % 4]).name, W_STORE[(k // 4) % 5])))
+        bylen.setdefault(v.size, []).append((v0, want, c))
     for ln, lst in bylen.items():       # 2-D form: one row per vector
         if ln < 2:
             continue
-        ip, mx = parabolic_max(np.stack([x[0] for x in lst]))
-        for k, (v, want, c) in enumerate(lst):
-            if not (abs(ip[k] - want[0]) <= 1e-9 and abs(mx[k] - want[1]) <= 1e-9):
-                bad.append((c, (float(ip[k]), float(mx[k]), "2d")))
+        for dt, how in ((np.float64, "c"), (np.float32, "ro"), (np.int32, "f"), (np.float64, "strided")):
+            x = _store(np.stack([x[0] for x in lst]).astype(dt), how)[0]
+            try:
+                ip, mx = parabolic_max(x)
+            except Exception as ex:  # noqa
+                bad.append((lst[0][2], (type(ex).__name__, "2d", np.dtype(dt).name, how)))
+                continue
+            for k, (v, want, c) in enumerate(lst):
+                if not (abs(ip[k] - want[0]) <= 1e-9 and abs(mx[k] - want[1]) <= 1e-9):
+                    bad.append((c, (float(ip[k]), float(mx[k]), "2d", np.dtype(dt).name, how)))
     return bad
 
 
